@@ -261,6 +261,31 @@ static void sc_f2(int W) {
     vs_observe(vh::fmt("f2 ran=%d", J.total()).c_str());
 }
 
+// h) an external thread terminates the pool while main waits for termination (idle pool or with jobs)
+static void sc_h(int W, int NJ) {
+    Reset rst;
+    Jobs J;
+    {
+        tlx::ThreadPool pool(W);
+        Track trk(&pool, &J);
+        tlx::ThreadPool* p = &pool;
+        for (int i = 0; i < NJ; ++i) {
+            vs_set_tag(1 + i);
+            pool.enqueue([&J, i]() { J.run(i); });
+        }
+        vs_set_tag(50);
+        thread other([p]() { p->terminate(); });
+        pool.loop_until_terminate();
+        REQUIRE(pool.busy_.vs_peek() == 0, "loop_until_terminate-returned-with-running-job", "busy=%zu", pool.busy_.vs_peek());
+        REQUIRE(pool.terminate_.vs_peek(), "loop_until_terminate-returned-before-terminate", "terminate flag not set");
+        other.join();
+        check_at_most_once(J, "h");
+        REQUIRE(pool.done_.vs_peek() == (size_t)J.total(), "done-count", "done()=%zu but %d jobs ran", pool.done_.vs_peek(), J.total());
+    }
+    check_at_most_once(J, "h/after-destruction");
+    vs_observe(vh::fmt("h ran=%d", J.total()).c_str());
+}
+
 // g) reuse: two rounds
 static void sc_g(int W, int NJ) {
     Reset rst;
@@ -329,6 +354,8 @@ int main(int argc, char** argv) {
             add(vh::fmt("f2:w%d", W), "two-waiters-mixed", [W] { sc_f2(W); }, W == 1 ? 'P' : 'D', 2, 3);
         }
         if (W <= 2) add(vh::fmt("g:w%d:j1", W), "reuse", [W] { sc_g(W, 1); }, 'P', W == 1 ? 3 : 1, W == 1 ? 4 : 2);
+        add(vh::fmt("h:w%d:j0", W), "external-terminate", [W] { sc_h(W, 0); }, W == 1 ? 'P' : 'D', 2, 3);
+        if (W <= 2) add(vh::fmt("h:w%d:j1", W), "external-terminate", [W] { sc_h(W, 1); }, W == 1 ? 'P' : 'D', 2, 3);
         if (W == 1) add(vh::fmt("g:w%d:j2", W), "reuse", [W] { sc_g(W, 2); }, 'P', 2, 3);
     }
     // explicit-state (unbounded) exploration of the smaller scenarios: every interleaving at the granularity of
@@ -356,6 +383,8 @@ int main(int argc, char** argv) {
             adds(vh::fmt("e:w%d:j2:terminate", W), "terminate-with-queued", [W] { sc_e(W, 2, true); }, q);
             adds(vh::fmt("g:w%d:j1", W), "reuse", [W] { sc_g(W, 1); }, q);
             adds(vh::fmt("f:w%d:j1", W), "two-waiters", [W] { sc_f(W, 1, false); }, q);
+            adds(vh::fmt("h:w%d:j0", W), "external-terminate", [W] { sc_h(W, 0); }, q);
+            adds(vh::fmt("h:w%d:j1", W), "external-terminate", [W] { sc_h(W, 1); }, q);
         }
         adds("a:w3:j1", "independent", [] { sc_a(3, 1); });
     }
